@@ -30,13 +30,35 @@ KeepFrom(doc, i, C) == IF i > Len(doc) THEN <<>>
                        ELSE (IF i \in C THEN <<>> ELSE <<doc[i]>>) \o KeepFrom(doc, i + 1, C)
 RemoveAll(doc, F) == KeepFrom(doc, 1, Covered(doc, F))
 
+\* ---- reference cycles ---------------------------------------------------------
+\* A use element is cyclic when expanding it (its target's subtree, and transitively the targets of the uses in
+\* there) comes back to the use itself or to one of its ancestors: self reference, reference to an ancestor, mutual
+\* cycles through two or more ids.  Cyclic uses are faulty elements like any other.
+IndexOf(doc, id) == LET s == {i \in 1..Len(doc) : doc[i][1] # "end" /\ doc[i][2] = id} IN
+                    IF id = "" \/ s = {} THEN 0 ELSE CHOOSE i \in s : \A j \in s : i <= j
+UsesIn(doc, S) == {i \in S : doc[i][1] = "use"}
+TargetTree(doc, i) == LET k == IndexOf(doc, doc[i][5][1]) IN IF k = 0 THEN {} ELSE k..SubtreeEnd(doc, k)
+RECURSIVE ReachFrom(_, _, _)
+ReachFrom(doc, S, n) ==              \* indices reached from the set S of element indices within n expansion rounds
+  IF n = 0 THEN S
+  ELSE LET more == S \cup UNION {TargetTree(doc, u) : u \in UsesIn(doc, S)} IN
+       IF more = S THEN S ELSE ReachFrom(doc, more, n - 1)
+RECURSIVE AncestorsOf(_, _, _, _)
+AncestorsOf(doc, j, i, st) == IF j = i THEN {st[k] : k \in 1..Len(st)}
+                              ELSE IF doc[j][1] = "end" THEN AncestorsOf(doc, j + 1, i, SubSeq(st, 1, Len(st) - 1))
+                              ELSE IF doc[j][1] \in ContainerTags THEN AncestorsOf(doc, j + 1, i, Append(st, j))
+                              ELSE AncestorsOf(doc, j + 1, i, st)
+CyclicUses(doc) ==
+  {i \in 1..Len(doc) : doc[i][1] = "use" /\
+      LET r == ReachFrom(doc, TargetTree(doc, i), Len(doc)) IN i \in r \/ (AncestorsOf(doc, 1, i, <<>>) \ {1}) \cap r # {}}
+
 \* fault kinds applicable to a token
 FaultsOf(tok) ==
   (IF tok[1] # "end" THEN {"tf_unclosed", "tf_unknown", "tf_few_numbers", "tf_bad_unit", "colour_bad", "style_garbage"} ELSE {}) \cup
   (IF tok[1] \in {"rect", "circle", "ellipse", "line"} THEN {"length_garbage", "length_negative"} ELSE {}) \cup
   (IF tok[1] = "path" THEN {"d_truncated", "d_arc_short", "d_no_move", "d_garbage"} ELSE {}) \cup
   (IF tok[1] \in {"polyline", "polygon"} THEN {"points_odd", "points_garbage"} ELSE {}) \cup
-  (IF tok[1] = "svg" THEN {"viewbox_garbage", "viewbox_short", "par_garbage", "length_garbage"} ELSE {}) \cup
+  (IF tok[1] = "svg" THEN {"viewbox_garbage", "viewbox_short", "viewbox_zero", "par_garbage", "length_garbage"} ELSE {}) \cup
   (IF tok[1] = "image" THEN {"image_bad_data", "length_garbage"} ELSE {}) \cup
   (IF tok[1] = "use" THEN {"href_missing", "href_self", "href_ancestor", "length_garbage"} ELSE {})
 =============================================================================
